@@ -17,7 +17,7 @@
 (*   - a pipe-backed producer (Pipe.tla) has returned.                       *)
 (*                                                                           *)
 (* Units: microseconds, KiB, bytes.  TLC integers are 32 bit: every product  *)
-(* below stays under 2^31 for inputs up to 64 MiB.                           *)
+(* below stays under 2^31: MaxLenKiB caps the input size used.                            *)
 EXTENDS Naturals, Sequences
 
 CONSTANTS CpuFloorUs,    \* CPU time every call may use regardless of the input
